@@ -349,7 +349,28 @@ def _make_communities(spec):
     peer, subject = loop.run_until_complete(build())
     _emit("Y " + peer.my_peer.public_key.key_to_bin().hex())
     _emit("Y " + subject.my_peer.public_key.key_to_bin().hex())
-    return {"loop": loop, "peer": peer, "subject": subject}
+    out = {"loop": loop, "peer": peer, "subject": subject}
+    cfg = spec["community"]
+    if cfg.get("second_sk"):
+        # a second pseudonym of the same user: its own IdentityCommunity on the SAME IdentityManager / database
+        async def build2():
+            return MockIPv8(Peer(crypto.key_from_private_bin(_unhx(cfg["second_sk"]))), IdentityCommunity,
+                            settings=IdentitySettings(identity_manager=subject.overlay.identity_manager))
+        out["subject2"] = loop.run_until_complete(build2())
+        _emit("Y " + out["subject2"].my_peer.public_key.key_to_bin().hex())
+    if cfg.get("wallet"):
+        # the user's attestation wallet (own file database <dir>/sqlite/attestations.db) wired to the identity overlay
+        # the way CommunicationChannel.on_attestation_complete does for an own attribute
+        from ipv8.attestation.wallet.community import AttestationCommunity, AttestationSettings
+
+        async def build3():
+            return MockIPv8(subject.my_peer, AttestationCommunity,
+                            settings=AttestationSettings(working_directory=spec["dir"]))
+        wallet = loop.run_until_complete(build3())
+        wallet.overlay.set_attestation_request_complete_callback(
+            lambda for_peer, name, ahash, id_format, from_peer=None: subject.overlay.self_advertise(ahash, name, id_format))
+        out["wallet"] = wallet
+    return out
 
 
 def _run_community_ops(spec, comm):
@@ -366,6 +387,8 @@ def _run_community_ops(spec, comm):
             try:
                 if k == "own":
                     own_creds.append(subject.overlay.self_advertise(_unhx(op["hash"]), op["name"]))
+                    if own_creds[-1] is not None:
+                        _emit("J " + op["hash"])          # the API returned a credential for this attribute hash
                 elif k == "peer_adv":
                     peer_creds.append(peer.overlay.self_advertise(_unhx(op["hash"]), op["name"]))
                 elif k == "disclose":
@@ -381,6 +404,18 @@ def _run_community_ops(spec, comm):
                     tk_ = b"".join(t.get_plaintext_signed() for t in peer.overlay.token_chain)     # root first
                     packet = peer.overlay.ezr_pack(DisclosePayload.msg_id, DisclosePayload(md_, tk_, at_, au_))
                     subject.overlay.on_disclosure(peer.endpoint.wan_address, packet)
+                elif k == "own2":
+                    cr_ = comm["subject2"].overlay.self_advertise(_unhx(op["hash"]), op["name"])
+                    if cr_ is not None:
+                        _emit("J " + op["hash"])
+                elif k == "unload2":
+                    await comm["subject2"].overlay.unload()
+                elif k == "attested":
+                    _emit("W " + op["hash"])
+                    comm["wallet"].overlay.on_attestation_complete(_StubAtt(_unhx(op["blob"])), _StubSK(_unhx(op["key"])),
+                                                                   subject.my_peer, op["name"], _unhx(op["hash"]),
+                                                                   "id_metadata")
+                    _emit("J " + op["hash"])
                 elif k == "attest_me":
                     if op["cred"] < len(own_creds) and own_creds[op["cred"]] is not None:
                         att = Attestation.create(own_creds[op["cred"]].metadata, peer.my_peer.key)
@@ -623,6 +658,14 @@ def verify_main(spec):
             db2.close()
     except BaseException as e:  # noqa: BLE001
         out["reopen2"] = "error:" + type(e).__name__
+    if spec["kind"] == "manager" and (spec.get("community") or {}).get("wallet"):
+        try:
+            from ipv8.attestation.wallet.database import AttestationsDB
+            wdb = AttestationsDB(spec["dir"], "attestations")
+            out["wallet_rows"] = [[_cx(x) for x in r_] for r_ in wdb.get_all()]
+            wdb.close()
+        except BaseException as e:  # noqa: BLE001
+            out["wallet_error"] = type(e).__name__
     # rebuild the pseudonyms through the manager and verify them (reload path of PseudonymManager.__init__)
     if spec["kind"] == "manager" and "read_error" not in out:
         try:
@@ -945,6 +988,10 @@ class Trace:
                     self.labels.append("xx")
             elif t == "N":
                 self.cur_op = int(w[1])
+            elif t == "J":
+                self.__dict__.setdefault("returned_creds", []).append(w[1])
+            elif t == "W":
+                self.__dict__.setdefault("wallet_hashes", []).append(w[1])
             elif t == "Y":
                 self.__dict__.setdefault("pubkeys", set()).add(w[1])
             elif t == "K":
@@ -1097,7 +1144,7 @@ def execute(zy: Zygote, exp: Experiment, root: str, n: int):
             first_op += len(ops)
             if not last:
                 tr.end_phase()
-        vspec = dict(base, pks=exp.pks, sks=exp.sks, hashes=exp.hashes,
+        vspec = dict(base, pks=exp.pks, sks=exp.sks, hashes=exp.hashes, community=exp.extra.get("community"),
                      pubs=list(exp.extra.get("pubs", [])) + sorted(getattr(tr, "pubkeys", set())))
         dump = run_verify(zy, vspec)
         return {"trace": tr, "rc": res["rc"], "stderr": res["stderr"], "dump": dump, "phases_run": pi + 1,
@@ -1337,6 +1384,27 @@ def oracle(ctx, exp: Experiment, r) -> bool:
             if got is None or got.get("blob") != _cx(_unhx(bx)) or got.get("key") != _cx(_unhx(kx)):
                 fail("AttestationsDB.check_database:record-lost-in-upgrade",
                      "a record of the version-1 file is missing or changed after the (killed) upgrade and reopen")
+    # (3e) what the community-level API acknowledged: a credential returned by self_advertise (directly, through a second
+    #      pseudonym on the same manager, or through the wallet's completion callback) has its token in the store
+    stored_attr = {d.get("content_hash") for kk, d in present.items() if kk[0] == "Tokens"}
+    for hsh in getattr(tr, "returned_creds", []):
+        if hsh not in stored_attr:
+            fail("IdentityCommunity.self_advertise:returned-credential-lost",
+                 f"self_advertise returned a credential for attribute {hsh[:16]}… but no token with that content hash "
+                 f"is in the reopened store")
+            break
+    # (3f) across the two stores of one attestation: a credential for an attested attribute is only visible when the
+    #      wallet holds its proof blob and secret key
+    if (exp.extra.get("community") or {}).get("wallet"):
+        if "wallet_error" in dump:
+            fail("AttestationsDB.open:reopen-fails-after-kill-in-insert", f"the wallet does not open: {dump['wallet_error']}")
+        have = {r_[0] for r_ in dump.get("wallet_rows", []) if r_}
+        for hsh in getattr(tr, "wallet_hashes", []):
+            if hsh in stored_attr and hsh not in have:
+                fail("AttestationCommunity.on_attestation_complete:credential-without-stored-proof",
+                     f"the identity store shows a credential for attested attribute {hsh[:16]}… but the wallet database "
+                     f"holds neither its proof blob nor its secret key")
+                break
     # (3d) every stored attestation points to stored metadata (hashes recomputed from the rows)
     if exp.kind == "manager":
         mds = [d for kk, d in present.items() if kk[0] == "Metadata"]
@@ -1823,6 +1891,29 @@ def scripted_community(rng):
     return Experiment("manager", [ops], None, "scripted-community", extra=extra)
 
 
+def scripted_shared_manager(rng):
+    """two pseudonyms of one user = two IdentityCommunity instances on ONE IdentityManager / database; one of them is
+    unloaded, the other keeps storing credentials"""
+    ops = [{"op": "own", "hash": _hx(rb(rng, 32)), "name": "o0"}, {"op": "own2", "hash": _hx(rb(rng, 32)), "name": "s0"},
+           {"op": "unload2"}, {"op": "own", "hash": _hx(rb(rng, 32)), "name": "o1"},
+           {"op": "own", "hash": _hx(rb(rng, 32)), "name": "o2"}]
+    extra = {"community": {"peer_sk": _hx(b"LibNaCLSK:" + rb(rng, 64)), "subject_sk": _hx(b"LibNaCLSK:" + rb(rng, 64)),
+                           "second_sk": _hx(b"LibNaCLSK:" + rb(rng, 64))}}
+    return Experiment("manager", [ops], None, "scripted-shared-manager", extra=extra)
+
+
+def scripted_wallet_identity(rng):
+    """the attestation wallet completes attestations for own attributes and the identity overlay advertises them
+    (CommunicationChannel wiring): two stores, one attestation"""
+    ops = [{"op": "own", "hash": _hx(rb(rng, 32)), "name": "o0"}]
+    for i in range(2):
+        ops.append({"op": "attested", "hash": _hx(rb(rng, 32)), "blob": _hx(b"p" * (200 + 9000 * i)),
+                    "key": _hx(rb(rng, 40)), "name": "a%d" % i})
+    extra = {"community": {"peer_sk": _hx(b"LibNaCLSK:" + rb(rng, 64)), "subject_sk": _hx(b"LibNaCLSK:" + rb(rng, 64)),
+                           "wallet": True}}
+    return Experiment("manager", [ops], None, "scripted-wallet-identity", extra=extra)
+
+
 def reload_bound():
     """the bound of the in-memory structures the reload path may use (TokenTree's buffer of tokens waiting for their
     predecessor), read from the working tree; workload sizes are chosen relative to it"""
@@ -1910,6 +2001,8 @@ def scripted(rng):
         wallet_v1_experiment(rng, "no_option_table"),
         scripted_foreign(rng),
         scripted_community(rng),
+        scripted_shared_manager(rng),
+        scripted_wallet_identity(rng),
     ]
 
 
@@ -2047,7 +2140,8 @@ class Runner:
         hypothesis_check(ctx, exp, r)
         if self.drv is not None:
             open_compare(ctx, exp, r, self.drv)
-        if self.drv is not None and ok and not exp.extra.get("threads") and not exp.extra.get("pre"):
+        if self.drv is not None and ok and not exp.extra.get("threads") and not exp.extra.get("pre") \
+                and not (exp.extra.get("community") or {}).get("wallet"):
             try:
                 model_compare(ctx, exp, r, self.drv)
             except (KeyError, ValueError, IndexError) as e:
@@ -2226,6 +2320,8 @@ REQUIRED_CLASSES = {
     "randsig:": "randomised-signature keys", "model:compared": "", "open_compared": "",
     "community_op:own": "IdentityCommunity.self_advertise", "community_op:disclose": "IdentityCommunity.on_disclosure",
     "community_op:attest_me": "IdentityCommunity.on_attest",
+    "community_op:unload2": "a second pseudonym on the shared IdentityManager is unloaded",
+    "community_op:attested": "AttestationCommunity.on_attestation_complete wired to the identity overlay",
 }
 
 
